@@ -3,6 +3,7 @@
 (* a sequence over the classes                                                                        *)
 (*   "D" ASCII digit   "N" other Unicode decimal digit   "S" space   "W" tab / newline / CR            *)
 (*   "B" no-break space   "P" '.'   "C" ':'   "L" letter   "O" other printable                          *)
+(*   "U" the letter u / U (the Croatian "at" that RE_SANITIZE_CROATIAN removes after a dotted date)      *)
 (* One operator per regex step, in code order.  `AsciiOnlyDigits` = TRUE is the pinned design, whose     *)
 (* period rule uses [^0-9\s]; FALSE is the repaired rule [^\d\s].                                       *)
 EXTENDS Naturals, Sequences
@@ -12,13 +13,46 @@ CONSTANT AsciiOnlyDigits
 \* followed by whitespace (and no leading whitespace) is still followed by whitespace when RE_TRIM_COLONS looks at the end.
 \* FALSE: the repaired rule ^\s*(\S.*?)\s*$ - either end alone is trimmed.
 CONSTANT TrimNeedsBothEnds
-Classes == {"D", "N", "S", "W", "B", "P", "C", "L", "O"}
+Classes == {"D", "N", "S", "W", "B", "P", "C", "L", "O", "U"}
 IsWs(c) == c \in {"S", "W", "B"}          \* Python's \s matches NBSP too
 IsDigit(c) == c \in {"D", "N"}            \* \d with re.UNICODE
 
 \* RE_SANITIZE_SKIP: tab / newline / CR -> space
 Subst(s, from, to) == [i \in 1..Len(s) |-> IF s[i] = from THEN to ELSE s[i]]
 SkipStep(s) == Subst(s, "W", "S")
+
+\* RE_SANITIZE_CROATIAN: (\d+)\.\s*(\d+)\.\s*(\d+)\.(\s+u)?  ->  \1.\2.\3 followed by one space.  It runs BEFORE the whitespace is
+\* normalised, so what it accepts between its parts is part of the design: CroatStrict = TRUE is the pinned pattern
+\* (at most ONE blank between the numbers, exactly ' u'), FALSE the repaired one (any run of blanks).
+\* Leftmost match, the scan goes on behind it; \d+ is greedy and is followed by a literal '.', so a match can only begin
+\* at the first digit of a run (a later digit of the same run matches exactly when the first does).
+CONSTANT CroatStrict
+\* the first position behind the run of blanks / of digits that starts at i
+RECURSIVE WsRunEnd(_, _)
+WsRunEnd(s, i) == IF i <= Len(s) /\ IsWs(s[i]) THEN WsRunEnd(s, i + 1) ELSE i
+RECURSIVE DigitRunEnd(_, _)
+DigitRunEnd(s, i) == IF i <= Len(s) /\ IsDigit(s[i]) THEN DigitRunEnd(s, i + 1) ELSE i
+\* behind the optional blanks between two parts (pinned: at most one)
+GapEnd(s, i) == IF CroatStrict THEN (IF i <= Len(s) /\ IsWs(s[i]) THEN i + 1 ELSE i) ELSE WsRunEnd(s, i)
+\* Num-dot from i: position behind "digits ." or 0
+NumDot(s, i) == LET e == DigitRunEnd(s, i) IN IF e > i /\ e <= Len(s) /\ s[e] = "P" THEN e + 1 ELSE 0
+\* the optional " u": pinned exactly one ASCII space, repaired one or more blanks
+UEnd(s, i) == IF CroatStrict THEN (IF i + 1 <= Len(s) /\ s[i] = "S" /\ s[i + 1] = "U" THEN i + 2 ELSE i)
+              ELSE LET e == WsRunEnd(s, i) IN IF e > i /\ e <= Len(s) /\ s[e] = "U" THEN e + 1 ELSE i
+\* a match starting at i: <<end, replacement>> or <<0, <<>>>>
+CroatAt(s, i) ==
+  LET a == NumDot(s, i) IN IF a = 0 THEN <<0, <<>>>> ELSE
+  LET b == NumDot(s, GapEnd(s, a)) IN IF b = 0 THEN <<0, <<>>>> ELSE
+  LET c == NumDot(s, GapEnd(s, b)) IN IF c = 0 THEN <<0, <<>>>> ELSE
+  LET g2 == GapEnd(s, a)  g3 == GapEnd(s, b)
+      n1 == SubSeq(s, i, a - 1)  n2 == SubSeq(s, g2, b - 1)  n3 == SubSeq(s, g3, c - 2)
+  IN <<UEnd(s, c), n1 \o n2 \o n3 \o <<"S">>>>
+RECURSIVE CroatFrom(_, _)
+CroatFrom(s, i) == IF i > Len(s) THEN <<>>
+                   ELSE LET m == IF IsDigit(s[i]) THEN CroatAt(s, i) ELSE <<0, <<>>>> IN
+                        IF m[1] # 0 THEN m[2] \o CroatFrom(s, m[1])
+                        ELSE <<s[i]>> \o CroatFrom(s, i + 1)
+CroatStep(s) == CroatFrom(s, 1)
 
 \* sanitize_spaces: NBSP -> space; \s+ -> one space; trim (pinned: only when BOTH ends carry whitespace)
 NbspStep(s) == Subst(s, "B", "S")
@@ -60,7 +94,7 @@ RECURSIVE RStrip(_)
 RStrip(s) == IF s # <<>> /\ IsWs(s[Len(s)]) THEN RStrip(SubSeq(s, 1, Len(s) - 1)) ELSE s
 StripStep(s) == LStrip(RStrip(s))
 
-San(s) == StripStep(ColonStep(PeriodStep(SpacesStep(SkipStep(s)))))
+San(s) == StripStep(ColonStep(PeriodStep(SpacesStep(CroatStep(SkipStep(s))))))
 
 \* numeral translation (locale.py:154-159) happens later: other decimal digits become ASCII digits
 Num(s) == Subst(s, "N", "D")
